@@ -23,6 +23,7 @@ structure AMod where
   modId : Int := 0
   unique : Bool := true
   isLogger : Bool := false
+  isDaemon : Bool := false
   name : List Nat := []
   pid : Int := 0
   subAll : Bool := false
@@ -207,14 +208,16 @@ structure Req where
   modId : Int
   unique : Bool
   isLogger : Bool
+  isDaemon : Bool := false
   pid : Int
   name : Option (List Nat)      -- `none` = not decodable as ascii
 
 def reqOf (cfg : Cfg) (m : AMod) (h : Hdr) (buf : List Nat) : Req :=
   if h.mtype == cfg.mtConnectV2 then
     { v2 := true, modId := bufI16 buf 6, unique := bufI16 buf 4 == 0, isLogger := bufI16 buf 0 == 1,
-      pid := bufI32 buf 8, name := cstr buf 12 32 }
-  else { v2 := false, modId := h.src, unique := m.unique, isLogger := bufI16 buf 0 == 1, pid := m.pid, name := some m.name }
+      isDaemon := bufI16 buf 2 == 1, pid := bufI32 buf 8, name := cstr buf 12 32 }
+  else { v2 := false, modId := h.src, unique := m.unique, isLogger := bufI16 buf 0 == 1, isDaemon := bufI16 buf 2 == 1,
+         pid := m.pid, name := some m.name }
 
 /-- refusal the property statement demands -/
 def mustRefuse (cfg : Cfg) (a : A) (u : Nat) (r : Req) (nm : List Nat) : Bool :=
@@ -251,7 +254,7 @@ def checkConnect (cfg : Cfg) (a : A) (u : Nat) (m : AMod) (h : Hdr) (evs : List 
       let a := a.chk (may || observedAccept) "C06" s!"connect of {u} with id {r.modId} was refused without reason"
       if observedAccept then
         (a.upd u (fun m => { m with connected := true, modId := r.modId, unique := r.unique, isLogger := r.isLogger,
-                                     pid := r.pid, name := nm }), some true)
+                                     isDaemon := r.isDaemon, pid := r.pid, name := nm }), some true)
       else (a, some false)
     else
       if observedAccept then
@@ -259,7 +262,7 @@ def checkConnect (cfg : Cfg) (a : A) (u : Nat) (m : AMod) (h : Hdr) (evs : List 
         let a := a.chk (cfg.dynStart ≤ id && id < cfg.maxModules) "C06" s!"dynamic id {id} outside [{cfg.dynStart}, {cfg.maxModules})"
         let a := a.chk (!(a.mods.any (fun o => o.alive && o.uid != u && o.modId == id))) "C06" s!"dynamic id {id} is already held by a live module"
         (a.upd u (fun m => { m with connected := true, modId := id, unique := r.unique, isLogger := r.isLogger,
-                                     pid := r.pid, name := nm }), some true)
+                                     isDaemon := r.isDaemon, pid := r.pid, name := nm }), some true)
       else
         (a.chk (dynFull cfg a) "C06" s!"connect of {u} asking for a dynamic id was refused although ids are free", some false)
 
@@ -522,7 +525,42 @@ def checkNoNoticeAboutNotices (cfg : Cfg) (a : A) (all : List Ev) : A :=
 
 def props : List String := ["C01", "C03", "C05", "C06", "C07", "C14", "C18", "C19"]
 
-def checkAll (cfg : Cfg) (rounds : List Round) (obs : List (List Ev)) (crash : Option String) : List (String × String) :=
+/-- one row of the manager's module table when the script is exhausted -/
+structure FinalRow where
+  uid : Nat
+  modId : Int
+  unique : Bool
+  isLogger : Bool
+  isDaemon : Bool
+  connected : Bool
+  pid : Int
+  name : List Nat
+  subs : List Int
+deriving Repr, Inhabited
+
+/-- C07 / C06 on the tables the manager is left with: a departed connection is in the module table no more (its id and
+    name are free), every live one still is, and what the manager recorded about a connected module is what its connect
+    request said — id, uniqueness, logger and daemon flags, pid, name -/
+def checkFinal (a : A) (rows : List FinalRow) : A :=
+  let a := rows.foldl (fun a r =>
+    if r.uid == 0 then a else
+    match a.get r.uid with
+    | some m => a.chk m.alive "C07" s!"connection {r.uid} has departed but is still in the module table when the script ends"
+    | none => a.err "C07" s!"the module table holds connection {r.uid}, which was never accepted") a
+  let a := a.mods.foldl (fun a m =>
+    if m.alive then a.chk (rows.any (·.uid == m.uid)) "C07" s!"live connection {m.uid} is missing from the module table when the script ends"
+    else a) a
+  rows.foldl (fun a r =>
+    match a.get r.uid with
+    | some m =>
+      if m.alive && m.connected then
+        a.chk (r.connected && r.modId == m.modId && r.unique == m.unique && r.isLogger == m.isLogger &&
+               r.isDaemon == m.isDaemon && r.name == m.name && r.pid == m.pid) "C06"
+          s!"the manager records (id,unique,logger,daemon,pid,connected) = ({r.modId},{r.unique},{r.isLogger},{r.isDaemon},{r.pid},{r.connected}) for connection {r.uid}; it connected with ({m.modId},{m.unique},{m.isLogger},{m.isDaemon},{m.pid})"
+      else a
+    | none => a) a
+
+def runSpec (cfg : Cfg) (rounds : List Round) (obs : List (List Ev)) (crash : Option String) : A :=
   let a0 : A := {}
   let a := match crash with
     | some w => a0.err "C03" s!"MessageManager.run() was terminated by {w}"
@@ -560,9 +598,20 @@ def checkAll (cfg : Cfg) (rounds : List Round) (obs : List (List Ev)) (crash : O
   let senderTbl : List (Nat × Nat) := rounds.flatMap (fun r => r.reads.map (fun rd => (rd.h.k, rd.uid)))
   let senderOf := fun k => match senderTbl.find? (·.1 == k) with | some p => p.2 | none => 0
   let a := checkC05 a all senderOf
-  let a := checkNoNoticeAboutNotices cfg a all
+  checkNoNoticeAboutNotices cfg a all
+
+def verdicts (a : A) : List (String × String) :=
   props.map (fun p => match a.errs.find? (·.1 == p) with
     | some e => (p, "fail " ++ e.2)
     | none => (p, "ok"))
+
+def checkAll (cfg : Cfg) (rounds : List Round) (obs : List (List Ev)) (crash : Option String) : List (String × String) :=
+  verdicts (runSpec cfg rounds obs crash)
+
+/-- the same with the final tables (when the run did not crash and the harness sent them) -/
+def checkAllFinal (cfg : Cfg) (rounds : List Round) (obs : List (List Ev)) (crash : Option String)
+    (final : Option (List FinalRow)) : List (String × String) :=
+  let a := runSpec cfg rounds obs crash
+  verdicts (match final, crash with | some rows, none => checkFinal a rows | _, _ => a)
 
 end Pyrtma.Mgr.Spec
